@@ -64,6 +64,10 @@ CHECKS = {
    "SoyDirectives.tla / SoyEscape.tla: every encoding directive as a function with its contract (decoder, output alphabet, length bound; truncate under both readings of the limit); TLC checks the contracts on all short strings over an adversarial alphabet and that the named deviations are caught (C16Model), exports strings x arguments x single directives and pairs, and validates sampled results (C16Trace); the real Go directives are rendered and judged with independent decoders (percent-decoder, HTML text decoder, JS string-literal evaluation and JSON.parse in node); the JavaScript counterparts are judged as the code soyjs GENERATES for {$x|directive} run in node (plus the bare library functions for the contracts that are theirs alone)",
    "decoders are harness/node code implementing contracts the spec states; '+' for space in escapeUri is pinned by the repository's tests",
    "TLA+ directive contracts checked by TLC + independent decoders applied to real Go renders and to generated JavaScript", "§5 C16"),
+ "C04": ("translation_validation",
+   "every program (seeded random typed expressions, generated bundles with control flow/calls/params/lets/msg/globals/$ij/autoescape modes/directive chains, and systematic families for functions, directives, loop helpers, null-safe references and lets in untaken branches) is translated by the JS generator, the translation is executed by node, the Go renderer renders the same program, and TLC judges each recorded [program, go, js] line against the reference interpreter (C04Trace) with the common-subset predicate SoyCommon.InCommonSubset deciding which lines are judged and CanonRefs comparing reference spellings; SoyJsScope.tla model-checks JS static naming against SoyExec's dynamic scoping (4 deviations replayed)",
+   "cases outside the common subset or Unspec in the reference are not judged; node v20 executes the generated code; documented Go/JS differences (round of negative halves, escapeUri/escapeJsString/json encodings, quote-reference reuse) are outside the subset",
+   "translation validation: generated JavaScript executed and compared three-way (JS = Go = TLA+ reference) with the subset decided by the spec", "§5 C04"),
 }
 
 NOT_YET = {
